@@ -13,6 +13,8 @@ import (
 func init() {
 	register("C02", func(c *core.Ctx, tier string) {
 		truncatedBodyRefused(c, "C02.14")
+		wtCandidateRevision(c, "C02.15")
+		closedByPacketListener(c, "C02.16")
 		baseTransportEffects(c, "C02.11")
 		frameTransportEffects(c, "C02.10")
 		c02OpenGuard(c)
